@@ -159,7 +159,7 @@ def collapse_obligations():
         for fast in (0, 1):
             n = 'collapse_edge.deferred%d_fast%d' % (dfr, fast)
             pre = '  TK m; { static const int W0[] = {SHAPE_W}; int aa[4]; unwitness(W0, &m, aa); }\n  m.deferred_deletion_ = %d; m.fast_deletion_ = %d;\n  for (int i = 0; i < 5; i++) m.ghost_v.data[i] = 100 + i;' % (dfr, fast)
-            args = '  int he = ARG(0);\n  __CPROVER_assume(%s);' % rng('he', '2 * ' + NE)
+            args = '  int he = ENUM_HE;'
             call = '  struct HEH hh; hh.idx_ = he; ret = %scollapse_edge(%s, hh).idx_;' % (P, M)
             post = ['  int a = HEFROM(&o, he), b = HETO(&o, he); int ida = 100 + a, idb = 100 + b;',
                     A('ovm_exc == 0 && wf(&m)', 'mesh_stays_well_formed', n),
@@ -179,8 +179,8 @@ def collapse_obligations():
             d = dict(DEFS); d.update(LC=4, PC=4, LE=12, PE=12, LF=10, PF=10, VSTD_CAP_DEFAULT=26)
             obs.append(Ob(id='C15.' + n, props=['C15', 'C03'], quick_for=[], tu='tethex', cfg='tet', tier='B', roots=[TET + '::collapse_edge'] + ROOTS_BUILD, harness=mh,
                           includes=['wf.h', 'view.h', 'add_spec.h', 'query_spec.h', 'circ_spec.h', 'shapes.h'], copies=[TK], defines=d, unwind=30, covers=1, timeout=6000, mem_gb=24,
-                          inits={'tk_init': TK}, adaptive_unwind=True, unwind_start=10, prebuild_shape=SHAPES['twotets'], preamble_after=COLLAPSE_HELP,
-                          bounds=dict(shape='twotets', halfedge='all halfedges of the shape (symbolic)', deferred=dfr, fast=fast),
+                          inits={'tk_init': TK}, adaptive_unwind=True, unwind_start=10, prebuild_shape=SHAPES['twotets'], preamble_after=COLLAPSE_HELP, enum=[('ENUM_HE', range(18))],
+                          bounds=dict(shape='twotets', halfedge='all 18 halfedges of the shape, one CBMC run each', deferred=dfr, fast=fast),
                           note='collapse_edge on two tetrahedra glued on a face (every edge satisfies the link condition), any halfedge, deferred deletion %s, fast deletion %s: resulting cells, surviving handle (tracked by a ghost vertex property), well-formedness' % ('on' if dfr else 'off', 'on' if fast else 'off')))
     return obs
 _base_tet = obligations
